@@ -847,7 +847,16 @@ func checkOffsetStores(c *Ctx, rule string, only map[string]bool) {
 				// the transfer started at the File offset
 				switch callee {
 				case "readAt", "writeAt", "readChunkAt", "writeChunkAt":
-					offArg := call.Call.Args[len(call.Call.Args)-1]
+					// the offset argument: the int64 among the arguments (last by convention, any position after a reordering)
+					var offArg ssa.Value
+					for _, a := range call.Call.Args[1:] {
+						if isBasicKind(types.Int64)(a.Type()) {
+							offArg = a
+						}
+					}
+					if offArg == nil {
+						return false
+					}
 					ot := affineOf(offArg)
 					if _, has := offKey(ot); !has || len(ot.coef) != 1 || ot.c != 0 {
 						return false
